@@ -6,7 +6,8 @@ Model of the pipeline of C14 (saved grid geometry ⇒ rate matrix ⇒ spectral d
 * `molgri/space/fullgrid.py:143-156`   `FullGrid.get_total_volumes`
 * `molgri/space/fullgrid.py:225-282`   `FullGrid._get_N_N`  (adjacency / borders / distances, one assembly for all three)
 * `molgri/molecules/transitions.py:314-346`  `SQRA.get_rate_matrix`
-* `molgri/molecules/transitions.py:375-398`  `DecompositionTool.get_decomposition` (everything after the ARPACK call)
+* `molgri/molecules/transitions.py:375-398`  `DecompositionTool.get_decomposition` (everything after the ARPACK call: `.real`,
+                                       `argsort()[::-1]` as a stable insertion sort of positions, column permutation)
 
 Import-free, executable, polymorphic in the scalar type `K` (the driver instantiates `Rat` for the assembly and the
 sorting, `Float` for the rate matrix; the proofs use an arbitrary field).
